@@ -35,6 +35,9 @@ pub struct Policy {
     pub poisoned_laggard: bool,
     /// every Byzantine key additionally runs two *real* replicas (twins) in different partitions
     pub twins: bool,
+    /// (before the heal) all correct replicas time out in one view, every one of them receives the timeout votes of only a few
+    /// others - and then a Byzantine vote for that view followed by one for the next view; everything else is lost
+    pub partial_timeout_round: bool,
     pub p_crash: f64,
     pub partition_period: usize,
     pub hidden_commit: bool,
@@ -66,6 +69,7 @@ impl Policy {
             laggard: false,
             poisoned_laggard: false,
             twins: false,
+            partial_timeout_round: false,
             p_crash: 0.0,
             partition_period: 0,
             hidden_commit: false,
@@ -482,6 +486,104 @@ impl Director {
         self.count("partition_changes");
     }
 
+    /// The last act of the adversary before a heal: every correct replica times out in the same view p, receives the timeout
+    /// votes of a few correct validators only (not enough for a certificate), then a Byzantine timeout vote for p followed by one
+    /// for p+1; the rest of that round is lost. Retransmission after the heal must still complete the certificate of view p.
+    async fn partial_timeout_round(&mut self) {
+        let correct = self.w.correct();
+        let byz: Vec<usize> = (0..self.c.n()).filter(|i| self.c.byz[*i]).collect();
+        if byz.is_empty() {
+            self.count("partial_timeout_round_skipped_no_byzantine_validator");
+            return;
+        }
+        self.hidden = None;
+        self.steer = None;
+        self.laggard = None;
+        for g in self.groups.iter_mut() {
+            *g = 0;
+        }
+        for i in &correct {
+            self.w.set_crash(*i, None);
+            if !self.w.node(*i).alive {
+                self.w.start(*i).await;
+                self.down[*i] = false;
+            }
+        }
+        for t in self.w.twins() {
+            self.w.kill(t).await;
+        }
+        self.settle().await;
+        // synchronise: a few rounds in which everything except proposals is delivered and then the clock advances, so that all
+        // correct replicas time out together
+        for _ in 0..4 {
+            for _ in 0..8 {
+                let batch = std::mem::take(&mut self.net.inflight);
+                if batch.is_empty() {
+                    break;
+                }
+                for (id, d, _) in batch {
+                    if kind_of(&self.net.msgs[id]).0 != 0 {
+                        self.do_deliver(id, d);
+                    }
+                }
+                self.settle().await;
+            }
+            self.w.advance(VIEW_TIMEOUT_MS);
+            self.settle().await;
+            if self.alerted() || !self.res.died.is_empty() {
+                return;
+            }
+        }
+        let p = self.node_view[correct[0]];
+        if correct.iter().any(|i| self.node_view[*i] != p) {
+            self.count("partial_timeout_round_skipped_views_differ");
+            return;
+        }
+        let batch = std::mem::take(&mut self.net.inflight);
+        let mut tv: BTreeMap<usize, usize> = BTreeMap::new();
+        for (id, _, from) in &batch {
+            if kind_of(&self.net.msgs[*id]) == (2, p) && *from < self.c.n() {
+                tv.insert(*from, *id);
+            }
+        }
+        if tv.len() < correct.len() {
+            self.count("partial_timeout_round_skipped_not_everybody_timed_out");
+            return;
+        }
+        let mut hit = 0;
+        for r in &correct {
+            let mut s: Vec<usize> = correct.clone();
+            s.shuffle(&mut self.rng);
+            let k = self.rng.gen_range(1..=s.len().max(2) - 1);
+            s.truncate(k);
+            let wsum = |v: &[usize]| v.iter().map(|i| self.c.w[*i] as u128).sum::<u128>();
+            while !s.is_empty() && wsum(&s) + self.c.byz_weight() >= self.c.quorum() {
+                s.pop();
+            }
+            if s.is_empty() {
+                continue;
+            }
+            for x in &s {
+                self.do_deliver(tv[x], *r);
+            }
+            self.settle().await;
+            let a = *byz.choose(&mut self.rng).unwrap();
+            for v in [p, p + 1] {
+                let m = byz::s_timeout(&self.c.sk[a], validator::v2::ReplicaTimeout { view: self.c.view(v), high_vote: None, high_qc: None });
+                let id = self.net.msgs.len();
+                self.net.msgs.push(m);
+                self.do_deliver(id, *r);
+                self.settle().await;
+            }
+            hit += 1;
+        }
+        if hit == correct.len() {
+            self.count("partial_timeout_rounds_with_a_byzantine_vote_for_the_next_view");
+        } else {
+            self.count("partial_timeout_rounds_incomplete");
+        }
+    }
+
     /// C06: fair synchronous suffix. Returns the number of view timeouts needed until every correct node
     /// stores a block that nobody had before the suffix started, or an alert.
     async fn heal(&mut self) {
@@ -681,6 +783,9 @@ impl Director {
                 self.net.inflight.drain(..2000);
                 self.count("backlog_truncated");
             }
+        }
+        if self.pol.partial_timeout_round && !self.alerted() {
+            self.partial_timeout_round().await;
         }
         if self.pol.heal && !self.alerted() {
             self.heal().await;
